@@ -8,6 +8,23 @@ Open Scope list_scope.
 Lemma has_error_app : forall a b, has_error (a ++ b) = has_error a || has_error b.
 Proof. intros. unfold has_error. apply existsb_app. Qed.
 
+Lemma top_error_is_error : forall r, has_top_error r = true -> has_error r = true.
+Proof.
+  induction r as [|k r IH]; simpl; intro H; try discriminate.
+  apply orb_true_iff in H. destruct H as [H|H]; [destruct k; try discriminate; reflexivity | rewrite (IH H); apply orb_true_r].
+Qed.
+
+Lemma well_topped_app : forall a b, well_topped (a ++ b) = well_topped a && well_topped b.
+Proof. intros. unfold well_topped. apply forallb_app. Qed.
+
+(* all errors are top-level Errors and stop_at_errors saw none: there is no error at any depth *)
+Lemma well_topped_clean : forall r, well_topped r = true -> has_top_error r = false -> has_error r = false.
+Proof.
+  induction r as [|k r IH]; simpl; intros W T; auto.
+  apply andb_true_iff in W. destruct W as [W1 W2]. apply orb_false_iff in T. destruct T as [T1 T2].
+  rewrite (IH W2 T2). destruct k; simpl in *; try discriminate; reflexivity.
+Qed.
+
 Lemma has_error_nonempty : forall r, has_error r = true -> nonempty r = true.
 Proof. intros [|k r] H; simpl in *; [discriminate | reflexivity]. Qed.
 
@@ -50,7 +67,8 @@ Hypothesis Hob : obligations St sem.
 
 Let Hloud : loud_on_err St sem := proj1 Hob.
 Let Hquiet : quiet_on_ok St sem := proj1 (proj2 Hob).
-Let Hinf : infallible_ok St sem := proj2 (proj2 Hob).
+Let Hinf : infallible_ok St sem := proj1 (proj2 (proj2 Hob)).
+Let Htop : top_on_continue St sem := proj2 (proj2 (proj2 Hob)).
 
 Notation do_call := (do_call St sem).
 Notation run_calls := (run_calls St sem).
@@ -74,7 +92,7 @@ Lemma step_sem_none : forall k s r pushed, step_sem k s r = (None, pushed) -> ha
 Proof.
   intros k s r pushed H. destruct k; cbv beta iota delta [TopShape.step_sem] in H;
     try (match type of H with sem ?k0 _ _ = _ => apply (Hloud k0 s r pushed); [discriminate | exact H] end).
-  destruct (has_error r) eqn:E; inversion H; subst. rewrite app_nil_r. exact E.
+  destruct (has_top_error r) eqn:E; inversion H; subst. rewrite app_nil_r. exact (top_error_is_error _ E).
 Qed.
 
 Lemma do_call_err : forall c s a r a' r', do_call c s a r = FErr a' r' -> has_error r' = true /\ a' = a.
@@ -214,6 +232,38 @@ Proof.
       match type of E with sem ?k0 _ _ = _ => exact (Hquiet k0 _ _ _ _ eq_refl E) end.
 Qed.
 
+(* --- going on keeps the report well-topped (obligation T1) *)
+Lemma do_call_well_topped : forall c s a r s' a' r', try_ok c = true -> do_call c s a r = FNext s' a' r' ->
+  well_topped r = true -> well_topped r' = true.
+Proof.
+  intros c s a r s' a' r' T D W. destruct (do_call_next _ _ _ _ _ _ _ T D) as (pushed & E & _ & Er & _). subst r'.
+  rewrite well_topped_app, W. simpl.
+  destruct (c_phase c) eqn:K; cbv beta iota delta [TopShape.step_sem] in E;
+    try (match type of E with sem ?k0 _ _ = _ => apply (Htop k0 s r s' pushed); [discriminate | exact E] end).
+  destruct (has_top_error r); inversion E; reflexivity.
+Qed.
+
+Lemma run_calls_well_topped : forall cs s a r s' a' r', forallb try_ok cs = true -> run_calls cs s a r = FNext s' a' r' ->
+  well_topped r = true -> well_topped r' = true.
+Proof.
+  induction cs as [|c cs IH]; intros s a r s' a' r' T H W; simpl in *.
+  - inversion H; subst. exact W.
+  - apply andb_true_iff in T. destruct T as [T1 T2].
+    destruct (do_call c s a r) as [s1 a1 r1|a1 r1|a1 r1|] eqn:D; try discriminate.
+    eapply IH; eauto. eapply do_call_well_topped; eauto.
+Qed.
+
+Lemma run_loop_well_topped : forall fuel body s a r s' a' r', forallb try_ok body = true -> run_loop fuel body s a r = FNext s' a' r' ->
+  well_topped r = true -> well_topped r' = true.
+Proof.
+  induction fuel as [|n IH]; intros body s a r s' a' r' T H W; simpl in H; try discriminate.
+  destruct (run_calls body s a r) as [s1 a1 r1|a1 r1|a1 r1|] eqn:D; try discriminate.
+  assert (W1 := run_calls_well_topped _ _ _ _ _ _ _ T D W).
+  destruct (loop_done s1).
+  - inversion H; subst. exact W1.
+  - eapply IH; eauto.
+Qed.
+
 (* --- unwraps *)
 Definition known (have : list field) (a : aresult) : Prop := forall f, mem f have = true -> get a f = true.
 
@@ -290,13 +340,13 @@ Proof.
   - exists (rev xs), x. apply (f_equal (@rev A)) in E. rewrite rev_involutive in E. simpl in E. exact E.
 Qed.
 
-Lemma do_stop_next : forall c s a r s' a' r', is_stop c = true -> do_call c s a r = FNext s' a' r' -> has_error r = false /\ r' = r.
+Lemma do_stop_next : forall c s a r s' a' r', is_stop c = true -> do_call c s a r = FNext s' a' r' -> has_top_error r = false /\ r' = r.
 Proof.
   intros c s a r s' a' r' I H. unfold is_stop in I. apply andb_true_iff in I. destruct I as [Ik It].
   assert (T : try_ok c = true) by (unfold try_ok; rewrite It; reflexivity).
   destruct (do_call_next _ _ _ _ _ _ _ T H) as (pushed & E & _ & Er & _).
   destruct (c_phase c); simpl in Ik; try discriminate. cbv beta iota delta [TopShape.step_sem] in E.
-  destruct (has_error r) eqn:C; inversion E; subst. split; auto. apply app_nil_r.
+  destruct (has_top_error r) eqn:C; inversion E; subst. split; auto. apply app_nil_r.
 Qed.
 
 Section OkShape.
@@ -369,11 +419,11 @@ Proof.
 Qed.
 
 (* the closure ran to its Ok(())  =>  output is Some, the report holds no error, decls / defs / iterations_taken are Some *)
-Lemma ok_means_clean : forall fuel s0 r0 s a r,
+Lemma ok_means_clean : forall fuel s0 r0 s a r, well_topped r0 = true ->
   run_closure sh fuel s0 r0 = FNext s a r ->
   r_output a = true /\ has_error r = false /\ r_error a = false /\ r_decls a = true /\ r_defs a = true /\ r_iter a = true.
 Proof.
-  intros fuel s0 r0 s a r H. unfold TopShape.run_closure in H.
+  intros fuel s0 r0 s a r W0 H. unfold TopShape.run_closure in H.
   destruct try_parts as (T1 & T2 & T3).
   destruct sok_parts as (_ & _ & _ & U & _). unfold sok_uses in U.
   repeat (apply andb_true_iff in U; destruct U as [U ?]).
@@ -405,7 +455,12 @@ Proof.
     destruct (run_calls before s2 a2 r2) as [s3 a3 r3|a3 r3|a3 r3|] eqn:D3; try discriminate.
     simpl in H. destruct (do_call stopc s3 a3 r3) as [s4 a4 r4|a4 r4|a4 r4|] eqn:D4; try discriminate.
     destruct (do_stop_next _ _ _ _ _ _ _ Is D4) as [C Er]. subst r4.
-    eapply run_calls_quiet; eauto.
+    assert (W1 := run_calls_well_topped _ _ _ _ _ _ _ T1 D1 W0).
+    assert (W2 := run_loop_well_topped _ _ _ _ _ _ _ _ T2 D2 W1).
+    assert (Tb : forallb try_ok before = true).
+    { rewrite P2 in T3. rewrite forallb_app in T3. apply andb_true_iff in T3. tauto. }
+    assert (W3 := run_calls_well_topped _ _ _ _ _ _ _ Tb D3 W2).
+    eapply run_calls_quiet; eauto. apply well_topped_clean; assumption.
   - split; [|split]; [exact (F FDecls (or_introl eq_refl)) | exact (F FDefs (or_intror (or_introl eq_refl))) | exact (F FIter (or_intror (or_intror (or_introl eq_refl))))].
 Qed.
 
@@ -424,16 +479,16 @@ Proof.
 Qed.
 
 (* ---------------------------------------------------------------- asm::assemble *)
-Theorem assemble_outcome : forall fuel s0 r0,
+Theorem assemble_outcome : forall fuel s0 r0, well_topped r0 = true ->
   match assemble sh fuel s0 r0 with
   | AReturn a r => clean_success a r \/ loud_failure a r
   | ADiverge => True
   | APanicUnwrap | APanicAssert => False
   end.
 Proof.
-  intros fuel s0 r0. unfold TopShape.assemble.
+  intros fuel s0 r0 W0. unfold TopShape.assemble.
   destruct (run_closure sh fuel s0 r0) as [s a r|a r|a r|] eqn:D; auto.
-  - left. destruct (ok_means_clean _ _ _ _ _ _ D) as (A & B & C & E & F & G). unfold clean_success. tauto.
+  - left. destruct (ok_means_clean _ _ _ _ _ _ W0 D) as (A & B & C & E & F & G). unfold clean_success. tauto.
   - assert (E := run_closure_err _ _ _ _ _ _ D). rewrite (has_error_nonempty _ E). rewrite andb_false_r.
     destruct sok_parts as (_ & _ & _ & _ & Fl). rewrite Fl. right. unfold loud_failure. repeat split; auto.
     destruct (r_output a) eqn:O; auto. exfalso.
@@ -441,23 +496,23 @@ Proof.
   - exact (closure_no_panic _ _ _ _ _ D).
 Qed.
 
-Theorem ok_clean : forall fuel s0 r0 a r, assemble sh fuel s0 r0 = AReturn a r -> r_output a = true ->
+Theorem ok_clean : forall fuel s0 r0 a r, well_topped r0 = true -> assemble sh fuel s0 r0 = AReturn a r -> r_output a = true ->
   has_error r = false /\ r_error a = false /\ r_decls a = true /\ r_defs a = true /\ r_iter a = true.
 Proof.
-  intros fuel s0 r0 a r H O. assert (X := assemble_outcome fuel s0 r0). rewrite H in X.
+  intros fuel s0 r0 a r W0 H O. assert (X := assemble_outcome fuel s0 r0 W0). rewrite H in X.
   destruct X as [X|X]; unfold clean_success, loud_failure in X; [tauto | destruct X as (X & _); congruence].
 Qed.
 
-Theorem err_loud : forall fuel s0 r0 a r, assemble sh fuel s0 r0 = AReturn a r -> r_output a = false ->
+Theorem err_loud : forall fuel s0 r0 a r, well_topped r0 = true -> assemble sh fuel s0 r0 = AReturn a r -> r_output a = false ->
   has_error r = true /\ r_error a = true.
 Proof.
-  intros fuel s0 r0 a r H O. assert (X := assemble_outcome fuel s0 r0). rewrite H in X.
+  intros fuel s0 r0 a r W0 H O. assert (X := assemble_outcome fuel s0 r0 W0). rewrite H in X.
   destruct X as [X|X]; unfold clean_success, loud_failure in X; [destruct X as (X & _); congruence | tauto].
 Qed.
 
-Theorem no_panic : forall fuel s0 r0, assemble sh fuel s0 r0 <> APanicUnwrap /\ assemble sh fuel s0 r0 <> APanicAssert.
+Theorem no_panic : forall fuel s0 r0, well_topped r0 = true -> assemble sh fuel s0 r0 <> APanicUnwrap /\ assemble sh fuel s0 r0 <> APanicAssert.
 Proof.
-  intros fuel s0 r0. assert (X := assemble_outcome fuel s0 r0).
+  intros fuel s0 r0 W0. assert (X := assemble_outcome fuel s0 r0 W0).
   split; intro H; rewrite H in X; exact X.
 Qed.
 End OkShape.
@@ -481,7 +536,7 @@ Qed.
 (* ---------------------------------------------------------------- driver::assemble_with_command on the modelled shape *)
 Section DriverGlue.
 Variable asm : report -> aout.
-Hypothesis Hasm : forall r,
+Hypothesis Hasm : forall r, well_topped r = true ->
   match asm r with
   | AReturn a rep => clean_success a rep \/ loud_failure a rep
   | ADiverge => True
@@ -518,7 +573,7 @@ Proof.
   destruct (c_inputs c) as [|i0 ir] eqn:Hi.
   { cbn. split; [auto|]. split; [intro X; discriminate X|]. split; [|no_actions].
     intros _. split; [reflexivity|]. left. auto. }
-  assert (A := Hasm []). destruct (asm []) as [a rep| | |] eqn:Ea; try contradiction.
+  assert (A := Hasm [] eq_refl). destruct (asm []) as [a rep| | |] eqn:Ea; try contradiction.
   2:{ cbn. split; [auto|]. split; [intro X; discriminate X|]. split; [intro X; discriminate X | no_actions]. }
   cbn [ds_report ds_asm ds_acts ds_clean ds_output_seen].
   destruct (r_output a) eqn:Ho.
@@ -572,15 +627,16 @@ Definition sem_unused_define (k : pkind) (s : unit) (r : report) : option unit *
 
 Lemma sem_assert_fails_obligations : obligations unit sem_assert_fails.
 Proof.
-  split; [|split].
+  split; [|split; [|split]].
   - intros k s r pushed _ H. destruct k; discriminate.
   - intros k s r s' pushed Q H. destruct k; simpl in Q; try discriminate; inversion H; reflexivity.
   - intros k s r pushed _ H. destruct k; discriminate.
+  - intros k s r s' pushed _ H. destruct k; inversion H; reflexivity.
 Qed.
 
 Lemma sem_unused_define_obligations : obligations unit sem_unused_define.
 Proof.
-  split; [|split].
+  split; [|split; [|split]]; [| | |intros k s r s' pushed _ H; destruct k; inversion H; reflexivity].
   - intros k s r pushed _ H. destruct k; try discriminate. inversion H; subst. rewrite has_error_app. simpl. apply orb_true_r.
   - intros k s r s' pushed Q H. destruct k; simpl in Q; try discriminate; inversion H; reflexivity.
   - intros k s r pushed I H. destruct k; simpl in I; discriminate.
@@ -595,6 +651,26 @@ Proof.
   split.
   - exists sem_assert_fails. split; [exact sem_assert_fails_obligations|]. eexists. eexists. split; [vm_compute; reflexivity|]. auto.
   - exists sem_unused_define. split; [exact sem_unused_define_obligations|]. eexists. eexists. split; [vm_compute; reflexivity|]. auto.
+Qed.
+
+(* why T1 is an obligation: a phase that reports an error under a Note parent AND goes on satisfies L, Q and `infallible`,
+   yet on the repaired shape the output is delivered with an `error:` printed (stop_at_errors reads top-level kinds only) *)
+Definition sem_note_wrapped (k : pkind) (s : unit) (r : report) : option unit * report :=
+  match k with PResolveIter => (Some tt, [KNoteWithError]) | _ => (Some tt, []) end.
+
+Lemma note_wrapped_escapes :
+  loud_on_err unit sem_note_wrapped /\ quiet_on_ok unit sem_note_wrapped /\ infallible_ok unit sem_note_wrapped /\
+  ~ top_on_continue unit sem_note_wrapped /\
+  exists a r, TopShape.assemble unit sem_note_wrapped (fun _ => true) modelled_shape 1 tt [] = AReturn a r /\
+              r_output a = true /\ r_error a = false /\ has_error r = true /\ has_top_error r = false.
+Proof.
+  split; [|split; [|split; [|split]]].
+  - intros k s r pushed _ H. destruct k; discriminate.
+  - intros k s r s' pushed Q H. destruct k; simpl in Q; try discriminate; inversion H; reflexivity.
+  - intros k s r pushed _ H. destruct k; discriminate.
+  - intro T. specialize (T PResolveIter tt [] tt [KNoteWithError]). simpl in T.
+    assert (X : PResolveIter <> PStopAtErrors) by discriminate. specialize (T X eq_refl). discriminate.
+  - eexists. eexists. split; [vm_compute; reflexivity|]. auto.
 Qed.
 
 (* the same two instantiations on the repaired shape end as the property demands (non-vacuity of the theorems) *)
@@ -652,11 +728,11 @@ Theorem driver_spec : forall St (sem : pkind -> St -> report -> option St * repo
     (drive modelled_driver_shape gs wr (fun c r => TopShape.assemble St sem loop_done modelled_shape fuel (init c) r)).
 Proof.
   intros St sem loop_done init fuel gs wr c Hob Hc. unfold drive. rewrite Hc.
-  assert (Hasm : forall r, match TopShape.assemble St sem loop_done modelled_shape fuel (init c) r with
+  assert (Hasm : forall r, well_topped r = true -> match TopShape.assemble St sem loop_done modelled_shape fuel (init c) r with
                            | AReturn a rep => clean_success a rep \/ loud_failure a rep
                            | ADiverge => True
                            | _ => False end)
-    by (intro r; exact (assemble_outcome St sem loop_done Hob modelled_shape modelled_shape_ok fuel (init c) r)).
+    by (intros r W; exact (assemble_outcome St sem loop_done Hob modelled_shape modelled_shape_ok fuel (init c) r W)).
   destruct (awc_spec _ Hasm c wr) as (R & Ok & Er & Ac).
   set (out := assemble_with_command modelled_driver_shape c wr
                 (fun r => TopShape.assemble St sem loop_done modelled_shape fuel (init c) r) []) in *.
